@@ -10,7 +10,8 @@ PID = "C26"
 TITLE = "Replica sets match Cassandra's replica placement"
 LEVEL = "exploration"
 ENGINE = "models"
-TECHNIQUE = ("exhaustive enumeration of small token rings plus property-based testing (Hypothesis) against two independent "
+TECHNIQUE = ("exhaustive enumeration of small token rings (fresh, and followed through sequences of single-host dc/rack relocations on one "
+             "Metadata object) plus property-based testing (Hypothesis) of random rings and random topology-refresh sequences against two independent "
              "transcriptions of Cassandra's calculateNaturalEndpoints (4.x DatacenterEndpoints and 2.x skipped-endpoints formulations)")
 RULE = ("A case is a ring description (hosts with dc/rack/tokens, partitioner), a list of keyspace replication settings and probe keys; "
         "the real Metadata/TokenMap/KeyspaceMetadata/Host objects are built from it the way the control connection does. "
@@ -28,7 +29,21 @@ RULE = ("A case is a ring description (hosts with dc/rack/tokens, partitioner), 
         "replica set is computed for every ring position; the driver is asked through TokenMap.get_replicas for every ring token and its "
         "+-1 neighbours and through Metadata.get_replicas for the probe keys (all of them on the first two keyspaces, every third on the others).  Non-trivial: a NetworkTopologyStrategy keyspace where rack "
         "awareness changes the result (the replica set differs from the first-RF-hosts-of-the-DC walk at some position) or RF exceeds "
-        "the number of racks of a DC with more hosts than racks, or a SimpleStrategy walk that has to skip a repeated host.")
+        "the number of racks of a DC with more hosts than racks, or a SimpleStrategy walk that has to skip a repeated host.  "
+        "Topology refreshes (round 4): a case may carry a list 'refreshes'; after the full probe of the freshly built ring (which fills the "
+        "per-keyspace replica maps) every step is applied to the SAME Metadata the way ControlConnection._refresh_node_list_and_token_map does "
+        "(new peers -> add_or_return_host, changed data_center/rack -> Host.set_location_info, changed token rows, vanished peers -> remove_host, "
+        "then Metadata.rebuild_token_map with the fresh host->tokens map) and the full probe is repeated against the reference for the NEW "
+        "layout (finding keys carry 'after-refresh:<kind>').  Part relocations enumerates (quick) 3 hosts x 1-2 tokens (<=4 in all) and 4 hosts x "
+        "1 token, (thorough) 3 hosts x 1-2 tokens, 4 hosts x 1-2 tokens (<=5 in all), 5 hosts x 1 token, in every ring order x every dc assignment x "
+        "every <=2-rack layout x every host: that host is moved through each of the other (dc0|dc1, r0|r1|r2) locations in turn and back home, "
+        "tokens and owners untouched, under 8 NetworkTopologyStrategy settings and SimpleStrategy 2.  Part topology-refreshes draws random rings as "
+        "random-rings does (>=2 hosts) followed by 1-3 steps out of: relocate 1-3 hosts (any DC, racks r0-r3), rebuild with nothing changed, "
+        "token assignment change (a host gains a token / a token moves to another host / two hosts exchange a token), a host removed, a host "
+        "added.  A case with refreshes is non-trivial iff at least one step changes the reference replica set of an already probed keyspace at "
+        "some ring token (a stale answer would be wrong); labels refresh:<kind>, refresh:changes-replicas / refresh:replicas-unchanged, "
+        "refresh:ring-unchanged-location-changes-replicas (tokens and owners identical, only dc/rack moved, placement differs), "
+        "refresh:nothing-changed, refresh-steps=N count them.")
 ASSUMPTIONS = [
     "spec/placement.py transcribes SimpleStrategy/NetworkTopologyStrategy.calculateNaturalEndpoints of Cassandra 2.x and 4.x; both are run on every "
     "case and must agree as sets (a disagreement is a harness error, never a violation)",
@@ -37,6 +52,11 @@ ASSUMPTIONS = [
     "chosen are transient -- restricted to the full ones",
     "every host has a non-empty datacenter and rack and tokens are distinct across hosts (what system.local/system.peers deliver)",
     "key tokens come from spec/murmur3.py (C08)",
+    "a topology refresh is modelled by the Metadata/Host calls the control connection makes (add_or_return_host, Host.set_location_info only when "
+    "dc/rack differ, remove_host, rebuild_token_map with the fresh host->tokens dict in host order); load-balancing-policy notifications and the "
+    "control connection's own decision whether to rebuild are outside this property -- every step here ends in rebuild_token_map, which is what "
+    "the driver does whenever membership, a location or a token assignment changed or a rebuild is forced; after a refresh the property is "
+    "demanded for the current ring only (the statement quantifies over rings, not over the history that led to them)",
 ]
 
 MIN_LONG, MAX_LONG = -2 ** 63, 2 ** 63 - 1
@@ -104,20 +124,106 @@ def _nontrivial(ring, short, opts, want):
 
 
 def interpret(case, ctx):
-    from cassandra.pool import Host
     ring = None
     with ctx.driver(["C26.build"]):
         ring = _ring.build({"partitioner": case["partitioner"], "hosts": case["hosts"], "keyspaces": case["keyspaces"]})
     if ring is None:
         return
+    steps = case.get("refreshes") or []
+    out = _probe_stage(ring, case, ctx, [])
+    if out is None:
+        return
+    nontrivial, refmap = out
+    if not steps:
+        ctx.nontrivial(nontrivial)
+        return
+    # topology refreshes on the SAME Metadata object: every step is what ControlConnection._refresh_node_list_and_token_map
+    # does with fresh system.local/system.peers rows, followed by the full probe against the reference for the NEW layout
+    state = dict((i, list(hd.get("tokens") or [])) for i, hd in enumerate(case["hosts"]))
+    changed_any = False
+    ctx.label("refresh-steps=%d" % len(steps))
+    for step in steps:
+        kind = step["kind"]
+        before_ring, before_topo = list(ring.ref_ring), dict(ring.topology)
+        done = False
+        with ctx.driver(["C26.refresh", kind]):
+            _apply_refresh(ring, state, step)
+            done = True
+        if not done:
+            return
+        out = _probe_stage(ring, case, ctx, ["after-refresh:" + kind])
+        if out is None:
+            return
+        _nt, newmap = out
+        ring_same = before_ring == ring.ref_ring
+        changed = sorted(set(_strategy_short(ring, name) for name in newmap if name in refmap and newmap[name] != refmap[name]))
+        ctx.label("refresh:" + kind)
+        if before_topo == ring.topology and ring_same:
+            ctx.label("refresh:nothing-changed")
+        if changed:
+            changed_any = True
+            ctx.label("refresh:changes-replicas")
+            if ring_same:
+                # tokens and owners identical, only dc/rack moved, and a cached keyspace's placement is different now
+                ctx.label("refresh:ring-unchanged-location-changes-replicas", *["refresh:ring-unchanged-changes:" + c for c in changed])
+        else:
+            ctx.label("refresh:replicas-unchanged")
+        refmap = newmap
+    ctx.nontrivial(changed_any)
+
+
+def _strategy_short(ring, name):
+    return ring.strategy(name)[0].rsplit(".", 1)[-1]
+
+
+def _apply_refresh(ring, state, step):
+    """one topology refresh the way the control connection applies it: new peers are added to the Metadata, known hosts whose
+    data_center/rack differ get Host.set_location_info, vanished peers are removed, then Metadata.rebuild_token_map(partitioner,
+    {host: [token strings]}) with the tokens of the fresh rows.  The reference-side description (ref_ring, topology) follows."""
+    md = ring.metadata
+    part = ring.partitioner
+    for hd in step.get("add", ()):
+        i = len(ring.hosts)
+        h = _ring.make_host(i, hd["dc"], hd["rack"])
+        h, _new = md.add_or_return_host(h)
+        ring.hosts.append(h)
+        ring._by_id[id(h)] = i
+        ring.topology[i] = (hd["dc"], hd["rack"])
+        state[i] = list(hd["tokens"])
+    for i, dc, rack in step.get("locations", ()):
+        if (dc, rack) != ring.topology[i]:          # ControlConnection._update_location_info only acts on a difference
+            ring.hosts[i].set_location_info(dc, rack)
+            ring.topology[i] = (dc, rack)
+    for i, toks in step.get("tokens", ()):
+        state[i] = list(toks)
+    for i in step.get("remove", ()):
+        md.remove_host(ring.hosts[i])
+        state.pop(i, None)
+        ring.topology.pop(i, None)
+    token_map = {}
+    ref_ring = []
+    for i in sorted(state):
+        if state[i]:
+            token_map[ring.hosts[i]] = [_ring.token_string(part, t) for t in state[i]]
+            ref_ring.extend((_ring.token_value(part, t), i) for t in state[i])
+    ref_ring.sort(key=lambda p: p[0])
+    ring.ref_ring = ref_ring
+    md.rebuild_token_map(_ring.PARTITIONERS[part], token_map)
+
+
+def _probe_stage(ring, case, ctx, sfx):
+    """probe every keyspace of the ring in its current state against the reference; `sfx` is appended to every finding key
+    (empty for the freshly built ring).  Returns (non-trivial by the static rule, {keyspace: {token: frozenset(want)}}) or None
+    when the stage could not be judged."""
+    from cassandra.pool import Host
     md = ring.metadata
     n = len(ring.ref_ring)
     tokens = [t for t, _ep in ring.ref_ring]
     part = ring.partitioner
     if md.token_map is None or [t.value for t in md.token_map.ring] != tokens:
-        ctx.fail(["C26.ring.order"], "driver ring %r differs from the sorted token list %r" % (
+        ctx.fail(["C26.ring.order"] + sfx, "driver ring %r differs from the sorted token list %r" % (
             md.token_map and md.token_map.ring, tokens))
-        return
+        return None
 
     # probes: (argument, ring index the reference selects)
     tprobes, kprobes = [], []
@@ -150,6 +256,7 @@ def interpret(case, ctx):
     pre = ref._dc_endpoints(ring.ref_ring, ring.topology)
     idmap = ring._by_id
     nontrivial = False
+    refmap = {}
     for ksi, name in enumerate(ring.keyspaces):
         cls, opts = ring.strategy(name)
         short = cls.rsplit(".", 1)[-1]
@@ -161,19 +268,21 @@ def interpret(case, ctx):
             raise HarnessError("reference self-check failed: %s" % e)
         # token-aware routing targets the FULL replicas: without transient replication that is every natural replica
         want = [[ep for ep, is_full in r if is_full] for r in nat]
+        refmap[name] = dict((tokens[i], frozenset(want[i])) for i in range(n))
         why = _nontrivial(ring, short, opts, [[ep for ep, _f in r] for r in nat])
         if why:
             nontrivial = True
-            ctx.label(why)
+            if not sfx:
+                ctx.label(why)
 
         results = []
-        with ctx.driver([sub + ".get_replicas", "by-token", rff]):
+        with ctx.driver([sub + ".get_replicas", "by-token", rff] + sfx):
             get = md.token_map.get_replicas
             for tok, arg, idx in tprobes:
                 results.append(("token", arg, idx, get(name, tok)))
         # every probe key on the first two keyspaces, every third key (rotating) on the others: the key -> token -> range
         # step does not depend on the keyspace
-        with ctx.driver([sub + ".get_replicas", "by-key", rff]):
+        with ctx.driver([sub + ".get_replicas", "by-key", rff] + sfx):
             get = md.get_replicas
             for key, arg, idx in (kprobes if ksi < 2 else kprobes[ksi % 3::3]):
                 results.append(("key", arg, idx, get(name, key)))
@@ -186,12 +295,12 @@ def interpret(case, ctx):
                 if verdicts[vk]:
                     continue
             if not isinstance(got, list) or not all(isinstance(h, Host) for h in got):
-                ctx.fail([sub + ".type"], "get_replicas returned %r" % (got,))
+                ctx.fail([sub + ".type"] + sfx, "get_replicas returned %r" % (got,))
                 break
             try:
                 got_idx = [idmap[id(h)] for h in got]
             except KeyError:
-                ctx.fail([sub + ".foreign-host"], "get_replicas returned a Host object that is not the ring's: %r" % (got,))
+                ctx.fail([sub + ".foreign-host"] + sfx, "get_replicas returned a Host object that is not the ring's: %r" % (got,))
                 break
             exp = want[idx]
             sgot = set(got_idx)
@@ -210,7 +319,7 @@ def interpret(case, ctx):
             shown = arg.hex() if isinstance(arg, bytes) else arg
             if repeats:
                 for f in feats:
-                    k = tuple([sub + ".repeat"] + f)
+                    k = tuple([sub + ".repeat"] + f + sfx)
                     if k not in seen_fail:
                         seen_fail.add(k)
                         ctx.fail(list(k), "%s %r %s=%r (ring index %d): replica list %r repeats a host (Cassandra places %r); ring=%r topology=%r" % (
@@ -218,17 +327,19 @@ def interpret(case, ctx):
             if sgot != set(exp):
                 lost = "missing" if set(exp) - sgot else "extra"
                 for f in feats:
-                    k = tuple([sub + ".set", lost] + f + (["list-repeats-host"] if repeats else ["list-distinct"]))
+                    k = tuple([sub + ".set", lost] + f + (["list-repeats-host"] if repeats else ["list-distinct"]) + sfx)
                     if k not in seen_fail:
                         seen_fail.add(k)
                         ctx.fail(list(k), "%s %r %s=%r (ring index %d): driver replicas %r, Cassandra's %s replicas %r (placement order, full?) %r; ring=%r topology=%r" % (
                             short, opts, how, shown, idx, got_idx, "full" if rff == "transient-rf" else "natural", sorted(exp), nat[idx],
                             ring.ref_ring, ring.topology))
-        ctx.label(short, "%s:%s" % (short, rff))
-    ctx.label("partitioner=" + part, "hosts=%d" % len(ring.hosts), "tokens=%d" % n, *sorted(pos_classes))
-    if n > len(set(ep for _t, ep in ring.ref_ring)):
-        ctx.label("vnodes")
-    ctx.nontrivial(nontrivial)
+        if not sfx:
+            ctx.label(short, "%s:%s" % (short, rff))
+    if not sfx:
+        ctx.label("partitioner=" + part, "hosts=%d" % len(ring.hosts), "tokens=%d" % n, *sorted(pos_classes))
+        if n > len(set(ep for _t, ep in ring.ref_ring)):
+            ctx.label("vnodes")
+    return nontrivial, refmap
 
 
 # ---------------------------------------------------------------------------------------------
@@ -424,15 +535,109 @@ def cross_cases(chunk):
 
 
 # ---------------------------------------------------------------------------------------------
+# relocations: a host's datacenter / rack changes while endpoints, tokens and owners stay what they were; the control
+# connection answers with Host.set_location_info + Metadata.rebuild_token_map on the SAME Metadata, whose per-keyspace replica
+# maps were filled by the probes before -- the answers must follow the new layout
+# ---------------------------------------------------------------------------------------------
+
+_RELOC_KEYSPACES = [
+    {"class": "NetworkTopologyStrategy", "dc0": "1"},
+    {"class": "NetworkTopologyStrategy", "dc0": "2"},
+    {"class": "NetworkTopologyStrategy", "dc0": "3"},
+    {"class": "NetworkTopologyStrategy", "dc0": "1", "dc1": "1"},
+    {"class": "NetworkTopologyStrategy", "dc0": "2", "dc1": "1"},
+    {"class": "NetworkTopologyStrategy", "dc0": "2", "dc1": "2"},
+    {"class": "NetworkTopologyStrategy", "dc0": "3", "dc1": "2"},
+    {"class": "NetworkTopologyStrategy", "dc1": "3"},
+    {"class": "SimpleStrategy", "replication_factor": "2"},
+]
+_RELOC_TARGETS = [("dc0", "r0"), ("dc0", "r1"), ("dc0", "r2"), ("dc1", "r0"), ("dc1", "r1"), ("dc1", "r2")]
+
+
+def reloc_chunks(tier):
+    # (hosts, max tokens per host, max tokens in the ring)
+    dom = [(3, 2, 4), (4, 1, 4)] if tier == "quick" else [(3, 2, 6), (4, 2, 5), (5, 1, 5)]
+    return [{"hosts": h, "max_tok": mt, "max_total": tot, "dcs": list(dcs)} for h, mt, tot in dom for dcs in _growth_strings(h, 2)]
+
+
+def reloc_cases(chunk):
+    """every ring order x every rack layout (<=2 racks per DC) x every host: that host is moved through every other
+    (dc0|dc1, r0|r1|r2) location in turn and finally back, one topology refresh per move"""
+    h, dcs = chunk["hosts"], chunk["dcs"]
+    for owners in _owner_seqs(h, chunk["max_tok"], chunk["max_total"]):
+        T = len(owners)
+        keys, fn = _probe_keys("murmur3", 2 * T + 1)
+        toks = [fn(keys[2 * pos + 1]) for pos in range(T)]
+        probe = [keys[0].hex(), keys[T].hex(), keys[T + 1 if T > 1 else 1].hex(), keys[2 * T].hex()]
+        for racks in _rack_assignments(dcs, 2):
+            hosts = [{"dc": "dc%d" % dcs[i], "rack": "r%d" % racks[i],
+                      "tokens": [toks[pos] for pos in range(T) if owners[pos] == i]} for i in range(h)]
+            for who in range(h):
+                home = (hosts[who]["dc"], hosts[who]["rack"])
+                steps = [{"kind": "relocate", "locations": [[who, dc, rack]]} for dc, rack in _RELOC_TARGETS if (dc, rack) != home]
+                steps.append({"kind": "relocate", "locations": [[who, home[0], home[1]]]})
+                yield {"partitioner": "murmur3", "hosts": hosts, "keyspaces": _RELOC_KEYSPACES, "keys": probe, "refreshes": steps}
+
+
+# ---------------------------------------------------------------------------------------------
 # random larger rings
 # ---------------------------------------------------------------------------------------------
 
-def s_random(max_dcs):
+def _draw_refreshes(draw, hosts, ndc, spare):
+    """1-3 topology refreshes, each what one pass of ControlConnection._refresh_node_list_and_token_map can find: hosts whose
+    dc/rack changed (tokens untouched), nothing changed (forced rebuild), a changed token assignment (a host gains a token, a
+    token moves to another host, two hosts exchange a token), a peer that vanished, a new peer.  Tokens stay distinct by
+    construction (new tokens come from a spare list drawn with the ring)."""
+    cur = dict((i, list(hd["tokens"])) for i, hd in enumerate(hosts))
+    total = len(hosts)
+    spare = list(spare)
+    steps = []
+    for _ in range(draw(st.integers(1, 3))):
+        alive = sorted(cur)
+        kind = draw(st.sampled_from(["relocate", "relocate", "relocate", "relocate", "same", "tokens", "remove", "add"]))
+        if kind == "relocate":
+            k = draw(st.integers(1, min(3, len(alive))))
+            who = draw(st.lists(st.sampled_from(alive), min_size=k, max_size=k, unique=True))
+            steps.append({"kind": "relocate", "locations": [
+                [i, "dc%d" % draw(st.integers(0, ndc - 1)), "r%d" % draw(st.integers(0, 3))] for i in who]})
+        elif kind == "tokens" and len(alive) >= 2:
+            op = draw(st.sampled_from(["gain", "move", "swap"]))
+            a, b = draw(st.lists(st.sampled_from(alive), min_size=2, max_size=2, unique=True))
+            if op == "gain" and spare:
+                cur[a] = cur[a] + [spare.pop()]
+                steps.append({"kind": "tokens", "tokens": [[a, list(cur[a])]]})
+            elif op == "move" and len(cur[a]) >= 2:
+                j = draw(st.integers(0, len(cur[a]) - 1))
+                t = cur[a][j]
+                cur[a] = cur[a][:j] + cur[a][j + 1:]
+                cur[b] = cur[b] + [t]
+                steps.append({"kind": "tokens", "tokens": [[a, list(cur[a])], [b, list(cur[b])]]})
+            else:
+                ja, jb = draw(st.integers(0, len(cur[a]) - 1)), draw(st.integers(0, len(cur[b]) - 1))
+                ta, tb = cur[a][ja], cur[b][jb]
+                cur[a] = [tb if x == ta else x for x in cur[a]]
+                cur[b] = [ta if x == tb else x for x in cur[b]]
+                steps.append({"kind": "tokens", "tokens": [[a, list(cur[a])], [b, list(cur[b])]]})
+        elif kind == "remove" and len(alive) >= 2:
+            i = draw(st.sampled_from(alive))
+            del cur[i]
+            steps.append({"kind": "remove", "remove": [i]})
+        elif kind == "add" and spare:
+            cur[total] = [spare.pop()]
+            steps.append({"kind": "add", "add": [{"dc": "dc%d" % draw(st.integers(0, ndc - 1)), "rack": "r%d" % draw(st.integers(0, 3)),
+                                                  "tokens": list(cur[total])}]})
+            total += 1
+        else:
+            steps.append({"kind": "same"})
+    return steps
+
+
+def s_random(max_dcs, refreshes=False):
     def make():
         @st.composite
         def ring(draw):
             p = draw(st.sampled_from(["murmur3", "murmur3", "murmur3", "random", "bytes"]))
-            h = draw(st.integers(1, 6))
+            h = draw(st.integers(2 if refreshes else 1, 6))
             ndc = draw(st.integers(1, max_dcs))
             keys = draw(st.lists(st.binary(min_size=1, max_size=6), min_size=1, max_size=4, unique=True))
             fn = {"murmur3": mref.murmur3_token, "random": mref.random_token, "bytes": mref.byte_ordered_token}[p]
@@ -450,7 +655,9 @@ def s_random(max_dcs):
                 near = [k for k in keys] + [k + b"\x00" for k in keys] + [k[:-1] for k in keys]
             tok = st.one_of(st.sampled_from(pool), st.sampled_from(near), rnd)
             counts = [draw(st.integers(1, 4)) for _ in range(h)]
-            toks = draw(st.lists(tok, min_size=sum(counts), max_size=sum(counts), unique=True))
+            nspare = 4 if refreshes else 0
+            toks = draw(st.lists(tok, min_size=sum(counts) + nspare, max_size=sum(counts) + nspare, unique=True))
+            spare = [t.hex() if p == "bytes" else t for t in toks[sum(counts):]]
             hosts = []
             at = 0
             for i in range(h):
@@ -466,7 +673,10 @@ def s_random(max_dcs):
             simple = st.one_of(st.integers(1, 7).map(str), st.sampled_from(["3/1", "2/1"])).map(
                 lambda r: {"class": "SimpleStrategy", "replication_factor": r})
             kss = draw(st.lists(st.one_of(nts, nts, simple), min_size=1, max_size=3))
-            return {"partitioner": p, "hosts": hosts, "keyspaces": kss, "keys": [k.hex() for k in keys]}
+            case = {"partitioner": p, "hosts": hosts, "keyspaces": kss, "keys": [k.hex() for k in keys]}
+            if refreshes:
+                case["refreshes"] = _draw_refreshes(draw, hosts, ndc, spare)
+            return case
 
         return ring()
     return make
@@ -477,5 +687,8 @@ def parts(tier):
         EnumPart("small-rings", small_chunks(tier), small_cases, interpret),
         EnumPart("nts-cross-dc", cross_chunks(tier), cross_cases, interpret),
         hyp_part("random-rings", s_random(2 if tier == "quick" else 3), interpret, tier, quick=180, thorough=3000,
+                 quick_shards=2, thorough_shards=16),
+        EnumPart("relocations", reloc_chunks(tier), reloc_cases, interpret),
+        hyp_part("topology-refreshes", s_random(2 if tier == "quick" else 3, refreshes=True), interpret, tier, quick=90, thorough=1500,
                  quick_shards=2, thorough_shards=16),
     ]
